@@ -70,9 +70,15 @@ inductive Op (F V : Type) where
   | setOpt (f : F) (v : V)
   /-- `.train()` / `.eval()` -/
   | mode (b : Bool)
+  /-- an observer call (`summary()`, `str(model)`, `export()`, `cost`, `get_cost`): by C18 it writes no
+  value, but it may run code that registers a buffer lazily — a `late` key appears -/
+  | observe
 
 def Op.isConfig {F V : Type} : Op F V → Bool
-  | .train _ => false | .setOpt _ _ => true | .mode _ => true
+  | .train _ => false | .setOpt _ _ => true | .mode _ => true | .observe => false
+
+def Op.isObserve {F V : Type} : Op F V → Bool
+  | .observe => true | _ => false
 
 variable {F V X O : Type} [DecidableEq F]
 
@@ -81,6 +87,7 @@ def step (σ : Sig F) (s : MState F V) : Op F V → MState F V
                          present := fun f => s.present f || σ.late f }
   | .setOpt g v => if (σ.kind g).settable then { s with val := fun f => if f = g then v else s.val f } else s
   | .mode b => { s with training := b }
+  | .observe => { s with present := fun f => s.present f || σ.late f }
 
 def run (σ : Sig F) (s : MState F V) (ops : List (Op F V)) : MState F V := ops.foldl (step σ) s
 
@@ -152,11 +159,11 @@ def Classified (σ : Sig F) : Prop := ∀ f, σ.read f = true → σ.kind f ≠ 
 def NoLate (σ : Sig F) : Prop := ∀ f, (σ.kind f).persisted = true → σ.late f = false
 
 /-- two wrappers built with the same constructor arguments: same constructor constants, same default
-configuration, same mode, same registered keys -/
+configuration, same mode, same registered state_dict keys -/
 structure SameCtor (σ : Sig F) (a b : MState F V) : Prop where
   frozen : ∀ f, (σ.kind f).frozen = true → a.val f = b.val f
   training : a.training = b.training
-  present : ∀ f, a.present f = b.present f
+  present : ∀ f, (σ.kind f).persisted = true → a.present f = b.present f
 
 /-! ### the generated table as a signature over field indices -/
 
